@@ -64,6 +64,9 @@ def mh_src(mh):
         return f"WeightedStringHandler(np.array({[list(r) for r in mh[1]]!r}), {list(mh[2])!r})"
     if k == "DepIntFrom":
         return f"Dependent({mh[1]!r}, _tag(lambda {mh[1]}: IntRange({mh[1]}, {mh[2]}), fn='IntRangeFrom', K={mh[2]}))"
+    if k == "DepWindow":     # two dependencies, listed in an order different from their declaration order
+        a, b = mh[1].split(",")
+        return (f"Dependent({mh[1]!r}, _tag(lambda {a}, {b}: IntRange({b}, {b} + {a}), fn='IntRangeWindow', K=0))")
     if k == "DepListSizeEq":
         return f"Dependent({mh[1]!r}, _tag(lambda {mh[1]}: ListSizeBetween({mh[1]}, {mh[1]}), fn='ListSizeEq', K=0))"
     raise ValueError(mh)
@@ -373,6 +376,11 @@ FIXED += [
         _c("Window", "", [("lo", ("ann", ("base", "int"), ("IntRange", 0, 3)))]),
         _c("Span", "", [("lo", ("ann", ("base", "int"), ("IntRange", 5, 9))), ("inner", ("sym", "Window")),
                         ("hi", ("ann", ("base", "int"), ("DepIntFrom", "lo", 9)))])]},
+    # a dependent refinement with two dependencies listed in another order than they are declared
+    {"id": "depwindow", "start": "Window", "classes": [
+        _c("Window", "", [("offset", ("ann", ("base", "int"), ("IntRange", 100, 109))),
+                          ("scale", ("ann", ("base", "int"), ("IntRange", 1, 3))),
+                          ("pos", ("ann", ("base", "int"), ("DepWindow", "scale,offset")))])]},
     # concrete start symbol with abstract-typed fields (mutation restarts from the root's stored context)
     {"id": "concstart", "start": "Prog", "classes": [
         _c("Stmt", "", abstract=True),
